@@ -1033,7 +1033,9 @@ def _np_full(ex, args, kwargs, node):
     fv = args[1]
     if not isinstance(fv, Num):
         raise Undecided("np.full with a non-numeric fill", node)
-    a = ex.new_array(("fill", fv.nf), shape, fv.dtype or "float", node)
+    dt = _dtype_of(_kw(args, kwargs, 2, "dtype"))
+    # without an explicit dtype np.full takes the dtype of the fill value
+    a = ex.new_array(("fill", fv.nf), shape, dt or fv.dtype, node)
     return ex.arr_value(a)
 
 
